@@ -255,7 +255,7 @@ def judge(case, lines, verdicts, spec_map):
         v = verdicts.get('%s.%s.img' % (case['cid'], s))
         if v is None:
             continue
-        if v.get('supported') != '1' or v.get('valid') != '1':
+        if v.get('supported') != '1' or v.get(case.get('valid_key', 'valid')) != '1':
             finds.append(('valid', -1, 'snapshot %s: %s' % (s, ' '.join('%s=%s' % kv for kv in sorted(v.items()) if kv[0] in ('supported', 'valid', 'safe', 'tables_strict', 'tables', 'leaked', 'under', 'over', 'error')))))
     if map_before is not None and spec_map is not None:
         a, b = hist.parse_map(map_before), hist.parse_map(spec_map)
